@@ -11,7 +11,7 @@ from .engine import (V, Py, NONE_V, mk_bool, mk_int, mk_str, Obligation, SymExc,
                      BreakSig, ContinueSig, PathEnd, RaiseSig, Unsupported, State)
 from .verifier import Verifier, Frame, _parse_expr, NOOP_FUNCS, _split_top
 
-SPEC_ONLY = {"str_to_int", "witness", "join_strs", "snap_key", "allocated", "abs_select", "lo", "hi", "store", "const_arr", "elems", "lemma", "old", "at_loop", "implies", "iff", "ite", "forall", "exists", "fresh", "typeis", "instance",
+SPEC_ONLY = {"abort_pending", "str_to_int", "witness", "join_strs", "snap_key", "allocated", "abs_select", "lo", "hi", "store", "const_arr", "elems", "lemma", "old", "at_loop", "implies", "iff", "ite", "forall", "exists", "fresh", "typeis", "instance",
              "unchanged", "unchanged_since_loop", "seq_len", "int_str", "join", "in_re", "card", "is_none",
              "some", "select"}
 
